@@ -28,6 +28,7 @@ Events (see `Lena.C20.Ev` in lean/LenaModel/Model/C20.lean):
                       not assume afterwards
     ext x             import-time `import x` of the third-party module x (ImportError when the environment lacks it)
     tryBegin / tryExcept / tryEnd   a module-level `try` with a handler for ImportError
+    gbind n / gunbind n             in a function: `global n; n = ...` / `global n; del n`
 
 Name classification (local / global / free) is taken from CPython's own `symtable`, so LEGB is exactly the
 compiler's.  Locals are invisible to the resolver except locals that are bound *only* by import statements
@@ -40,6 +41,19 @@ bound on *every* path are bound, and the names bound on *some* path only are **a
 under `assumed`, counted in `stats`): whether they exist is what the fresh interpreter shows, and a function that
 loads one that does not exist is found by the bytecode oracle.  Inside a function a `try` body is taken to run to
 its end (the path on which an optional module is installed), its handlers are regions.
+
+Closures.  A local of a function that its inner functions (`def`, `lambda`; not its own comprehensions) read as a
+free variable is followed like an import-bound local: its bindings are `bind` events of the function (parameters at
+the start; after an `if` chain, what every branch that goes on binds), and the reads of the inner functions are
+checked when the statement that creates the inner function is done -- the earliest moment it can be called; a cell
+that is not certainly bound by then is a NameError ("free variable referenced before assignment"); a cell bound by an
+import is followed through attribute chains.  `global n` writes in functions are `gbind` / `gunbind` events
+(call-time changes of the module namespace, explored by the resolver's closure over call sequences);
+`globals()["n"] = ...` likewise, `globals()[computed] = ...` can only add opaque bindings and is ignored (cautious).
+
+Coverage.  Every Name, Attribute, import statement and function of the source is accounted for (translated, in a
+dead interpreter-version branch, or in an annotation that is never evaluated); `coverage` per module, checked
+against an independent ast.walk count by the harness.
 
 A local that only import statements bind gets an identifier of its own (`lena (local)`): reading it where no import
 has certainly bound it is an UnboundLocalError (a NameError), never a read of the module's global of the same name.
